@@ -28,3 +28,4 @@ def rules(ctx):
     S.round4_residue_rules(ctx)
     S.survey3_rules(ctx)
     S.own_growth_rules(ctx)
+    S.round5_rules(ctx)
